@@ -1,26 +1,98 @@
 """Texts for MANIFEST.json (one entry per property that has a plan in plans.py)."""
 
-E1 = "E1 explicit-state explorer (harness/src/explore.rs)"
-TB = ("Trusted: rustc/std, the reference model (harness/src/model.rs, ~150 lines over BTreeMap), the hook dump, "
-      "and the state-key abstraction (values, slot numbers, free-list order dropped; DESIGN.md 2.2). "
-      "Complete only relative to the key universes (all prefixes of length <= 2 embedded at the top and at the bottom of every shipped type in the quick tier; length <= 3 and a depth-5 comb in the thorough tier).")
+E1 = "E1-explore"
+E2 = "E2-pairs"
+TB = ("Trusted: rustc/std, the reference model (harness/src/model.rs, ~150 lines over BTreeMap), the hook dump (cargo feature verif-hooks), "
+      "and the state-key abstraction (value contents, slot numbers, free-list order dropped; arguments in DESIGN.md 2.2). "
+      "Completeness is relative to the key universes: all prefixes of length <= 2 embedded at the top (hi) and at the bottom (lo, incl. full-length prefixes and the real /0) "
+      "of every shipped prefix type in the quick tier; length <= 3 (2.4 M shapes) and a depth-5 comb in the thorough tier. "
+      "A defect that needs four levels of bushy non-canonical structure is outside the bound.")
+BFS = "explicit-state BFS to fixpoint over the real implementation (clone-and-apply), canonical state key from the arena hook, reference-model oracle"
+PAIRS = "exhaustive enumeration of ordered pairs of reachable states x pairs of view roots, set-comprehension oracle over two reference models"
+
+
+def c(engine, technique, ref, text, note=TB):
+    return {"engine": engine, "technique": technique, "design_ref": ref, "text": text, "note": note}
+
 
 CHECKS = {
-    "C01": {
-        "engine": E1,
-        "technique": "explicit-state BFS to fixpoint over the real PrefixMap/PrefixSet with the full mutator alphabet, reference-model comparison on every transition and every query",
-        "design_ref": "DESIGN.md 3 (C01), 2.1-2.3",
-        "text": "Every state reachable by ANY finite history of the full public mutator alphabet over the key universe is visited (breadth-first search to fixpoint on the real data structure, for maps and sets, all 14 prefix types, top- and bottom-of-address embeddings). On every transition the call's return value and the complete iteration are compared with an abstract ordered map; in every state all exact-match observers are compared for every query of the query universe in both host-bit representations.",
-        "note": TB,
-    },
+    "C01": c(E1, BFS + "; every transition's return value and the full iteration compared; every exact-match observer for every query in both host-bit representations",
+             "DESIGN.md 3 (C01), 2.1-2.3",
+             "Every state reachable by ANY finite history of the full public mutator alphabet over the key universe is visited (breadth-first search to fixpoint on the real data structure, maps and sets, all 14 prefix types, hi and lo embeddings). "
+             "On every transition the call's return value and the complete iteration are compared with an abstract ordered map; in every state get/get_mut/get_key_value/contains_key/Entry::get/key (set: contains/get) are compared for every query of the query universe."),
+    "C02": c(E1, BFS + "; get_lpm / get_lpm_prefix / get_lpm_mut / set get_lpm compared with max-by-length over the model for every query",
+             "DESIGN.md 3 (C02)",
+             "All reachable tree shapes (including every placement of value-less leftover nodes) x all queries (stored, absent, ancestors, one-bit extensions, /0, full-length, both representations): the answer must equal the longest covering entry of the shape-blind model, for maps and sets and all prefix types."),
+    "C03": c(E1, BFS + "; every iterator kind drained with a step cap, compared with the model's ordered entry list; clones at every position; fusedness",
+             "DESIGN.md 3 (C03)",
+             "For every reachable shape: iter, keys, values, iter_mut, values_mut, into_iter, into_keys, into_values, &map/&set/set iteration and clones of every Clone iterator taken at every position yield exactly the model's entries in lexicographic order and then keep returning None."),
+    "C04": c(E1, BFS + "; len()/is_empty()/cached counter vs model and vs number of valued reachable nodes, checked on EVERY transition (before duplicate detection)",
+             "DESIGN.md 3 (C04)",
+             "Every transition of the complete mutator alphabet (map methods, every Entry path incl. OccupiedEntry::remove, mutable-view set/remove through eight navigation paths, clone, collect) from every reachable state: len() == model size == iter().count() == number of valued nodes in the arena."),
+    "C05": c(E2, PAIRS + " (union, union_mut: item list, order, tags, values)",
+             "DESIGN.md 3 (C05-C07)",
+             "Union and union_mut are evaluated on every ordered pair of U2 shapes (whole-map views), on canonical x all and all x canonical shapes with every pair of view roots (stored, branching, virtual; equal, nested, disjoint), with a PrefixSet on the right, and on canonical x canonical pairs for the other prefix types and the lo embedding; the item sequence must equal the set comprehension over the two models."),
+    "C06": c(E2, PAIRS + " (intersection, intersection_mut) plus same-map disjoint views",
+             "DESIGN.md 3 (C05-C07)",
+             "Same pair space as C05; intersection(_mut) must yield exactly the prefixes stored in both views with both values. Disjoint sub-views of the same map (every pair of roots, and every pair of mutable views from recursive split) must have an empty intersection."),
+    "C07": c(E2, PAIRS + " (difference, covering_difference and the _mut twins)",
+             "DESIGN.md 3 (C05-C07)",
+             "Same pair space as C05; difference = entries of a whose prefix is not stored in b, covering_difference = entries of a not covered by any prefix of b (b empty, b holding /0, b's root below or beside a's root are ordinary members of the pair space)."),
+    "C08": c(E2, PAIRS + " (every Left.right / Right.left / UnionItem::left()/right() / DifferenceItem.right / DifferenceMutItem.right compared with the LPM over the other view's model entries)",
+             "DESIGN.md 3 (C08)",
+             "Every LPM annotation produced by union / difference / difference_mut on the whole pair space of C05, in particular for all pairs of DIFFERENT view roots (nested, disjoint, virtual), which is where the seeding defect lived."),
+    "C09": c(E1, BFS + "; cover / cover_keys / cover_values / get_spm / get_spm_prefix / set cover+get_spm vs the model's covering entries sorted by length",
+             "DESIGN.md 3 (C09)",
+             "All reachable shapes (value-less nodes anywhere on the path) x all queries: the cover list, its first element (spm) and its last (lpm)."),
+    "C10": c(E1, BFS + "; children/children_mut/into_children for every selector; remove_children and retain with EVERY keep-subset as transitions; predicate call counting",
+             "DESIGN.md 3 (C10)",
+             "Selectors: stored, branching, on an edge, absent, /0, full-length, host bits. retain is a transition for every keep-subset of the stored entries of every state (predicate must be called exactly once per entry); remove_children / into_children for every key; the BFS continues from every post-removal state, so slot reuse after bulk removal is explored."),
+    "C11": c(E1, BFS + "; view_at/view_mut_at for every query, recursive left/right/split/has_left/has_right; separate canonical-alphabet exploration for the 'exists iff non-empty' clause",
+             "DESIGN.md 3 (C11)",
+             "For every state and query: None only if the model has nothing under q; prefix, value, iter/keys/values = entries under q; recursively for every side view. A second exploration restricted to insert/remove/retain/clear/collect checks that views and sides exist exactly when non-empty."),
+    "C12": c(E1, BFS + "; find/find_exact/find_lpm/view_at from EVERY view root (stored, branching, virtual) x every query (inside, covering, disjoint), mutable twins incl. the view handed back on failure",
+             "DESIGN.md 3 (C12)",
+             "Per state: every view obtainable by view_at over the query universe x every query x both representations; results are judged on the entries of the returned view (restriction of the model), positions for find_exact/find_lpm."),
+    "C13": c(E1 + " + " + E2, BFS + " with all value-only operations as transitions (all references held at once, distinct writes, full comparison, shape key unchanged) + pair engine for the *_mut set operations + same-map split views",
+             "DESIGN.md 3 (C13)",
+             "iter_mut, values_mut, children_mut, get_mut, get_lpm_mut, view value_mut/prefix_value_mut/iter_mut/values_mut/into_iter are transitions whose yielded sequence must equal the read-only order and whose successor must have the identical state key; union_mut/intersection_mut/difference_mut/covering_difference_mut on the pair space of C05 with writes through every reference and a full comparison of both maps."),
+    "C14": c("E1 + E2 + E4-sched + E5-programs", "three deciders: address-distinctness of all simultaneously live &mut (explorer, pair engine); shuttle DFS over ALL interleavings of workers on disjoint views with a scheduling point at every arena node write; bounded program grammar with rustc as oracle",
+             "DESIGN.md 3 (C14)",
+             "(1) every mutable traversal of every state / pair holds all references at once: addresses pairwise distinct, views from recursive split pairwise disjoint. (2) for every U2 shape and 2-3 disjoint mutable views (split, nested split, union_mut over two of three) every interleaving at node-write granularity is executed on the real code under shuttle's DFS scheduler: final map = sequential result, per-worker footprints disjoint. (3) 242 client programs (aliasing borrow patterns, consumed views, thread crossing, auto-trait matrix for Rc/Cell/MutexGuard values) must be rejected by rustc while their controls compile.",
+             TB + " Clause 2 is complete only at node-write granularity given footprint disjointness (which is checked on every schedule); clause 3 covers the listed grammar, not all safe Rust; rustc and shuttle's scheduler are trusted."),
+    "C15": c(E1, BFS + "; structural invariants on the arena dump after every transition; recursive walk through the public view API per state tied to the dump; canonical-alphabet exploration compared with freshly built maps",
+             "DESIGN.md 3 (C15)",
+             "(a) every transition of the full alphabet: root is /0, children strictly longer / covered / on the side of their bit, no sharing, depth bounded. (b) exploration restricted to the canonical sub-alphabet: exactly 2^|K| shapes, each identical to a map freshly built (two insertion orders) from the surviving keys, value-less non-root nodes have two children. (c) remove_keep_tree, entry and view value operations leave the node set and links unchanged."),
+    "C16": c(E1, BFS + "; partition invariant (reachable + free = all slots, no duplicates) and allocation discipline on every transition via the hook; churn cycles per state",
+             "DESIGN.md 3 (C16)",
+             "Every transition of every exploration: each slot is in the tree xor on the free list; the arena only grows when the free list is empty; clear resets it. Per state: one- and two-key insert/remove toggling and remove_children/retain cycles run 12/8 rounds with equal arena size after round 2 and the last; a canonical map emptied by remove keeps only the root."),
+    "C17": c("E3-algebra", "exhaustive enumeration of the input space against a bit-by-bit u128 reference (stateless: no state-space search)",
+             "DESIGN.md 3 (C17)",
+             "8-bit tuples: all 2304 values and all 5.3 M ordered pairs; other 13 types: all length pairs x position of the first differing bit x head patterns x host-bit patterns (up to 29 M pairs), all bit indices 0..=255, overrides vs the trait's default bodies through a newtype; a seeded random supplement is reported separately.",
+             "Trusted: the reference functions in harness/src/model.rs; wider types are covered structurally (boundary-biased), not for all 2^128 addresses."),
+    "C18": c(E1 + " + " + E2, BFS + " with the representation of EVERY node in the state key and every operation issued in both representations; pair engine with representation A on the left and B on the right",
+             "DESIGN.md 3 (C18)",
+             "Every combination (stored A|B) x (operation or query A|B) on U2; the model records the representation of the last inserting call (and the node's prefix for view set on a value-less node); every prefix-returning observer must return it; set-operation items must carry the representation of the side that stores them."),
+    "C19": c(E2, "all ordered pairs of reachable states in three payload variants (same / one value differs / one representation differs), == vs entry-sequence equality; clone / rebuild / serde round trip per state; clone independence under the full alphabet",
+             "DESIGN.md 3 (C19)",
+             "3.2 M map pairs and 2.2 M set pairs per type/embedding incl. the empty map, strict-prefix pairs and equal contents in different shapes; reflexivity, symmetry, != consistency; clone(), collect() and serde_json round trips (ipnet keys) compare equal; every operation applied to a clone leaves the original's arena bit-identical."),
+    "C20": c("E1 + E2 + E3 (+E6 fault enumeration)", BFS + " with every library call under catch_unwind (overflow checks + debug assertions; plain release build in the thorough tier), handle-level call sequences, panic injection at every callback invocation index, step caps and pending-call watchdog",
+             "DESIGN.md 3 (C20)",
+             "(a) every call of every engine on hi and lo embeddings of all 14 types (boundary lengths, 8/16/128-bit representations) must return; (b) all sequences of <= 2 (thorough: 3) non-consuming calls + one consuming call on Entry/VacantEntry/OccupiedEntry and TrieViewMut handles; (c) retain with every keep-subset and a panic at every predicate invocation index, panicking or_insert_with / insert_with / and_modify closures and Default impls: the map must stay well-formed, size-consistent and hold exactly the expected entries."),
 }
 
 NOT_APPLICABLE = {}
 
 ENGINES = [
-    {"name": "E1-explore", "path": "harness/src/explore.rs", "serves_properties": ["C01"],
-     "kind_free_text": "hand-rolled layered explicit-state BFS over the real implementation (clone-and-apply), canonical state key from the verification hook, per-transition and per-state oracles against a reference model"},
+    {"name": "E1-explore", "path": "harness/src/explore.rs", "serves_properties": ["C01", "C02", "C03", "C04", "C09", "C10", "C11", "C12", "C13", "C14", "C15", "C16", "C18", "C19", "C20"],
+     "kind_free_text": "hand-rolled layered explicit-state BFS over the real PrefixMap/PrefixSet (clone-and-apply), canonical state key from the verification hook, per-transition and per-state oracles against a reference model, deterministic merge, caps reported"},
+    {"name": "E2-pairs", "path": "harness/src/pairs.rs, harness/src/pairs2.rs", "serves_properties": ["C05", "C06", "C07", "C08", "C13", "C14", "C18", "C19", "C20"],
+     "kind_free_text": "exhaustive pair enumeration over the reachable-state sets produced by E1: set operations on two maps / map+set / two views of one map, equality"},
+    {"name": "E3-algebra", "path": "harness/src/algebra.rs", "serves_properties": ["C17", "C20"], "kind_free_text": "exhaustive/structured enumeration of prefix values and pairs for all 14 prefix types"},
+    {"name": "E4-sched", "path": "sched/src/main.rs", "serves_properties": ["C14"], "kind_free_text": "shuttle DFS scheduler over worker threads on disjoint mutable views; the access hook turns every node write into a scheduling point"},
+    {"name": "E5-programs", "path": "programs.py", "serves_properties": ["C14"], "kind_free_text": "bounded grammar of client programs compiled with rustc against the freshly built rlib; reject/accept oracle with controls"},
 ]
 
 NOTES = ("All checks rebuild the harness against /repo's working tree (path dependency with feature verif-hooks). "
-         "Exit 2 / MACHINERY-ERROR is never a verdict. Known findings live in KNOWN_FINDINGS.txt.")
+         "Exit 2 / MACHINERY-ERROR is never a verdict. Known findings live in KNOWN_FINDINGS.txt (eight upstream defects, all repaired by fix: commits). "
+         "seeded/ holds independently written property-breaking changes with the checks that catch them.")
